@@ -112,6 +112,16 @@ def extreme_st(draw, la, lb):
     sb["coord"] = [r * t / un for t in u]
     sb["placed"] = "prefactor-1e-%d" % int(k)
     wide = draw(st.integers(0, 2)) == 0
+    one_wide = (not wide) and draw(st.integers(0, 3)) == 0
+    if one_wide:
+        # one shell with a single primitive between the extremes, the other with a diffuse and a tight primitive
+        w_, m_ = (sa, sb) if draw(st.booleans()) else (sb, sa)
+        hi_ = hi_a if w_ is sa else hi_b
+        # half of the time near the geometric mean of the two extremes (as far from both as a single primitive can be)
+        mid = (lo * hi_) ** 0.5 * draw(st.floats(0.9, 1.1, allow_nan=False)) if draw(st.booleans()) else draw(gen.log_uniform(0.1, 2.0))
+        w_["exps"] = [lo, hi_] if draw(st.booleans()) else [hi_, lo]
+        w_["coeffs"] = [[draw(gen.log_uniform(0.2, 3.0))], [draw(gen.log_uniform(0.2, 3.0))]]
+        m_["exps"] = [mid]
     if wide:
         # both shells carry ONE contraction with a diffuse and a tight primitive (either order of the primitives): the pairs
         # (diffuse, tight) and (tight, diffuse) are then both present, whichever shell is listed first
@@ -125,7 +135,7 @@ def extreme_st(draw, la, lb):
     if draw(st.booleans()):  # the first charge sits on one of the two centres
         pos[0], cls[0] = list(shells[draw(st.integers(0, 1))]["coord"]), "on-centre"
     return {"shells": shells, "coords": pos, "charges": q, "ccls": cls, "ints": False,
-            "extreme": "wide-contractions" if wide else ("diffuse-first" if diffuse_first else "tight-first")}
+            "extreme": "wide-contractions" if wide else "one-wide-contraction" if one_wide else ("diffuse-first" if diffuse_first else "tight-first")}
 
 
 def judge(case):
